@@ -167,6 +167,75 @@ func runC29(c *Ctx) {
 		}
 	}
 
+	// ---- O-reserve: what the committee keeps reserved for proposals
+	c.R.Rule("O-reserve", "the committee's used amount keeps covering what proposals can still withdraw: proposalTracking releases (adds to the unused amount) only stages that never became withdrawable (absent from WithdrawableBudgets); resetCRCCommitteeUsedAmount leaves out only CRCanceled, VoterCanceled and Aborted proposals and counts a budget for every other status")
+	if pt := c.fn("cr/state", "ProposalManager", "proposalTracking"); pt != nil {
+		isWithdrawable := func(v ssa.Value) bool { return ssau.IsFieldOf(ssau.Unwrap(v), "ProposalState", "WithdrawableBudgets") }
+		n := 0
+		for _, b := range pt.Blocks {
+			for _, in := range b.Instrs {
+				add, ok := in.(*ssa.BinOp)
+				if !ok || add.Op != token.ADD || ssau.TypeName(add.Type()) != "Fixed64" || len(loopHeaders(b)) == 0 {
+					continue
+				}
+				if !ssau.DependsOn(add.Y, func(x ssa.Value) bool { return ssau.IsFieldOf(x, "Budget", "Amount") }) && !ssau.DependsOn(add.X, func(x ssa.Value) bool { return ssau.IsFieldOf(x, "Budget", "Amount") }) {
+					continue
+				}
+				n++
+				c.G2("O-reserve", fmt.Sprintf("proposalTracking|released stage#%d never became withdrawable", n), pt, in, "WithdrawableBudgets[stage] absent", lookupAbsent(isWithdrawable))
+			}
+		}
+		c.R.FloorCheck("O-reserve released-budget additions in proposalTracking", n, 2)
+	}
+	if rf := c.fn("cr/state", "Committee", "resetCRCCommitteeUsedAmount"); rf != nil {
+		statusVals := map[string]int64{}
+		for _, n := range []string{"Registered", "CRAgreed", "VoterAgreed", "Finished", "CRCanceled", "VoterCanceled", "Terminated", "Aborted"} {
+			if v, ok := c.constVal("cr/state", n); ok {
+				statusVals[n] = v
+			}
+		}
+		skip := map[string]bool{"CRCanceled": true, "VoterCanceled": true, "Aborted": true}
+		syms := &Symbols{Int: func(v ssa.Value) (string, bool) {
+			if ssau.IsFieldOf(ssau.Unwrap(v), "ProposalState", "Status") {
+				return "status", true
+			}
+			return "", false
+		}}
+		var adds []ssa.Instruction
+		for _, b := range rf.Blocks {
+			for _, in := range b.Instrs {
+				if add, ok := in.(*ssa.BinOp); ok && add.Op == token.ADD && ssau.TypeName(add.Type()) == "Fixed64" && len(loopHeaders(b)) > 0 {
+					adds = append(adds, add)
+				}
+			}
+		}
+		okAll := len(statusVals) == 8 && len(adds) > 0
+		detail := ""
+		for name, sv := range statusVals {
+			env := Env{B: map[string]bool{}, I: map[string]int64{"status": sv}, S: map[string]string{}}
+			cut := ssau.NewCut()
+			for _, i := range ssau.Ifs(rf) {
+				if !ssau.DependsOn(i.Cond, func(x ssa.Value) bool { return ssau.IsFieldOf(x, "ProposalState", "Status") }) {
+					continue
+				}
+				if val, known := syms.evalCond(i.Cond, env, 0, ""); known {
+					cut.AddEdge(i.Block(), ssau.Arm(i, !val))
+				}
+			}
+			r := ssau.ReachFromEntry(rf, cut)
+			counted := false
+			for _, a := range adds {
+				if r.Instr(a) {
+					counted = true
+				}
+			}
+			if counted == skip[name] {
+				okAll = false
+				detail += fmt.Sprintf(" %s: counted=%v", name, counted)
+			}
+		}
+		c.R.Check("O-reserve", "resetCRCCommitteeUsedAmount|statuses counted", okAll, c.pos(rf.Pos()), "a budget is counted for every status except CRCanceled, VoterCanceled, Aborted;"+detail)
+	}
 	// ---- G-once
 	isWithdrawn := func(v ssa.Value) bool { return ssau.IsFieldOf(ssau.Unwrap(v), "ProposalState", "WithdrawnBudgets") }
 	if f := c.fn("cr/state", "ProposalManager", "availableWithdrawalAmount"); f != nil {
